@@ -119,12 +119,12 @@ Exec(ts, pr) ==
     [] pr.p = "smeta" -> [ts EXCEPT !.meta.dur = ts.meta.vol]
     [] pr.p = "tidx"  -> [ts EXCEPT !.idx.vol = SubSeq(@, 1, pr.n)]
     [] pr.p = "tdat"  -> [ts EXCEPT !.dat[pr.f].vol = TruncDF(@, pr.len)]
-    [] pr.p = "newf"  -> [ts EXCEPT !.dat = [x \in Files(ts) \cup {pr.f} |->
+    [] pr.p = "newf"  -> [ts EXCEPT !.dat = TLCEval([x \in Files(ts) \cup {pr.f} |->
                                     IF x # pr.f THEN ts.dat[x]
                                     ELSE IF x \in Files(ts) THEN [vol |-> <<>>, dur |-> ts.dat[x].dur]   \* O_TRUNC of a leftover file: not durable yet
-                                    ELSE Both(<<>>)]]
-    [] pr.p = "ensf"  -> [ts EXCEPT !.dat = [x \in Files(ts) \cup {pr.f} |-> IF x \in Files(ts) THEN ts.dat[x] ELSE Both(<<>>)]]
-    [] pr.p = "rmf"   -> [ts EXCEPT !.dat = [x \in Files(ts) \ pr.fs |-> ts.dat[x]]]
+                                    ELSE Both(<<>>)])]
+    [] pr.p = "ensf"  -> [ts EXCEPT !.dat = TLCEval([x \in Files(ts) \cup {pr.f} |-> IF x \in Files(ts) THEN ts.dat[x] ELSE Both(<<>>)])]
+    [] pr.p = "rmf"   -> [ts EXCEPT !.dat = TLCEval([x \in Files(ts) \ pr.fs |-> ts.dat[x]])]
     [] pr.p = "ridx"  -> [ts EXCEPT !.idx = Both(pr.es)]
     [] pr.p = "head"  -> [ts EXCEPT !.head = pr.f]
     [] pr.p = "fail"  -> [ts EXCEPT !.failed = TRUE]
@@ -252,8 +252,11 @@ OpenP(ts) ==
          pV    == IF first.o > m0.vt THEN << WMeta(Meta(vt1, fo1)), SMeta >> ELSE <<>>
          sl    == Slip(ts, idx1, n, fo1, vt1, first.f, <<>>)
          missing == {x \in first.f .. (sl.head - 1) : x \notin Files(ts)}      \* preopen: read-only open fails
+         \* newTable then asks for the table size: sizeHidden reads the index entry of item hidden-1,
+         \* which is beyond the end of the index when more items are hidden than stored (error: EOF)
+         hiddenBeyond == vt1 > first.o + sl.n - 1
      IN pM \o pA \o pC \o pR \o pV \o sl.prog \o << SIdx, SDat(sl.head), SMeta, SetHead(sl.head) >> \o
-        (IF missing # {} THEN << Fail >> ELSE <<>>)
+        (IF missing # {} \/ hiddenBeyond THEN << Fail >> ELSE <<>>)
 
 (* ------------------------------------------------------------------------------------- *)
 (* crash                                                                                   *)
@@ -277,7 +280,7 @@ LenRange(a, b) == Min(a, b) .. Max(a, b)
 (* cut: [idx |-> [n, zf], dat |-> [fileno -> [len, zf, old]], meta |-> "old"|"new"] *)
 CrashTable(ts, cut) ==
   [ idx  |-> Both(CutIdx(ts.idx, cut.idx.n, cut.idx.zf)),
-    dat  |-> [x \in Files(ts) |-> Both(CutDat(ts.dat[x], cut.dat[x].len, cut.dat[x].zf, cut.dat[x].old))],
+    dat  |-> TLCEval([x \in Files(ts) |-> Both(CutDat(ts.dat[x], cut.dat[x].len, cut.dat[x].zf, cut.dat[x].old))]),
     meta |-> Both(IF cut.meta = "old" THEN ts.meta.dur ELSE ts.meta.vol),
     head |-> 0, failed |-> FALSE ]
 
@@ -334,11 +337,12 @@ AlignProgs(step, order) == [i \in 1..Len(order) |-> Seg(order[i], AlignProg(tab,
 (* NewFreezer as one function (no crash inside): what Ancients()/Tail() report afterwards is *)
 (* the head and the tails computed by repair                                                *)
 OpenAll(tb) ==
-  LET t0 == [t \in Tables |-> Run(tb[t], OpenP(tb[t]))]
-      t1 == [t \in Tables |-> Run(t0[t], AlignProg(t0, 1, t))]
-      t2 == [t \in Tables |-> Run(t1[t], AlignProg(t1, 2, t))]
-      t3 == [t \in Tables |-> Run(t2[t], AlignProg(t2, 3, t))]
-  IN [tabs |-> t3, head |-> CommonHeadOf(t0), tails |-> [grp \in Groups |-> GroupTailOf(t2, grp)]]
+  \* (TLCEval: function constructors are lazy in TLC; without it every application re-runs the repair)
+  LET t0 == TLCEval([t \in Tables |-> Run(tb[t], OpenP(tb[t]))])
+      t1 == TLCEval([t \in Tables |-> Run(t0[t], AlignProg(t0, 1, t))])
+      t2 == TLCEval([t \in Tables |-> Run(t1[t], AlignProg(t1, 2, t))])
+      t3 == TLCEval([t \in Tables |-> Run(t2[t], AlignProg(t2, 3, t))])
+  IN [tabs |-> t3, head |-> CommonHeadOf(t0), tails |-> TLCEval([grp \in Groups |-> GroupTailOf(t2, grp)])]
 
 (* ------------------------------ actions ------------------------------ *)
 Init == /\ tab = [t \in Tables |-> NewTable]
